@@ -5,6 +5,7 @@
 
 #include <atomic>
 #include <string>
+#include <optional>
 #include <thread>
 #include <vector>
 
@@ -45,6 +46,8 @@ enum OpCode : uint8_t
     O_PRIVATE_MUTATE,
     O_SHARED_ELEMENT,
     O_ASSIGN_FROM_SHARED,  // thread-private objects are assigned FROM the shared const vector / element
+    O_SHARED_REFERENCE,    // a const-qualified object of the MUTABLE reference type is shared: reads, element construction from it
+    O_EMPLACE_FROM_SHARED, // a private vector gets an element built from the fields (get<I>) of the shared const element / reference
     O_COUNT_
 };
 
@@ -225,7 +228,13 @@ struct Runner
         Vec a, b;
         Elem elem;
         uint32_t seed;
+        std::optional<typename Vec::reference> ref{};  // bound to a[0] before the threads start (if a is not empty)
     };
+    template <std::size_t... I, class Source>
+    static void emplace_fields_of(Vec& p, const Source& src, std::index_sequence<I...>)
+    {
+        p.emplace_back(cntgs::get<I>(src)...);
+    }
 
     // one const operation on the shared state; must not write anything shared
     static uint64_t do_op(uint8_t op, const Shared& sh, uint64_t salt)
@@ -355,6 +364,42 @@ struct Runner
                 }
                 break;
             }
+            case O_SHARED_REFERENCE:
+                if (sh.ref)
+                {
+                    const typename Vec::reference& r = *sh.ref;  // const-qualified object of the mutable reference type
+                    h = digest_ref(r, h, Idx{});
+                    h = mix(h, r.size_in_bytes());
+                    if constexpr (LI::ALL_COPYABLE)
+                    {
+                        Elem e(r);  // a const lvalue reference object is copied from, never moved from
+                        h = digest_ref(e, h, Idx{});
+                        h = mix(h, (e == r) ? 1 : 0);
+                        typename Vec::const_reference cr(r);
+                        Elem e2(cr);
+                        h = mix(h, (e2 == e) ? 1 : 0);
+                    }
+                }
+                else
+                    h = mix(h, 5);
+                break;
+            case O_EMPLACE_FROM_SHARED:
+                if constexpr (LI::ALL_COPYABLE)
+                {
+                    // all shared objects were built with the same fixed sizes (fixed_seed == sh.seed)
+                    Vec p = build(sh.seed, 0, 2, sh.seed);
+                    emplace_fields_of(p, sh.elem, Idx{});
+                    h = digest_ref(p[0], h, Idx{});
+                    h = mix(h, (p[0] == sh.elem) ? 1 : 0);
+                    if (!a.empty())
+                    {
+                        emplace_fields_of(p, a[a.size() - 1], Idx{});
+                        h = digest_ref(p[1], h, Idx{});
+                    }
+                }
+                else
+                    h = mix(h, 6);
+                break;
             case O_ASSIGN_FROM_SHARED:
                 if constexpr (LI::ALL_COPYABLE && LI::ALL_COPY_ASSIGNABLE)
                 {
@@ -413,6 +458,7 @@ struct Runner
         Vec b = build((plan.seed & 1) ? plan.seed : plan.seed + 1, (plan.seed / 18) % 5, 5, plan.seed, true);
         Vec donor = build(plan.seed + 3, 2, 2, plan.seed);
         Shared sh{std::move(a), std::move(b), Elem(std::move(donor[1])), plan.seed};
+        if (!sh.a.empty()) sh.ref.emplace(sh.a[0]);
         const std::size_t T = plan.threads.size();
         // expected digests, computed before any thread exists
         std::vector<uint64_t> expected(T), got(T);
@@ -451,7 +497,7 @@ struct Runner
             bool mine[O_COUNT_]{};
             for (auto op : t) mine[op % O_COUNT_] = true;
             for (int k = 0; k < O_COUNT_; ++k) kinds_seen[k] += mine[k];
-            if (mine[O_COPY_VECTOR] || mine[O_ELEMENT_FROM_REF] || mine[O_PRIVATE_MUTATE] || mine[O_ASSIGN_FROM_SHARED]) copier = true;
+            if (mine[O_COPY_VECTOR] || mine[O_ELEMENT_FROM_REF] || mine[O_PRIVATE_MUTATE] || mine[O_ASSIGN_FROM_SHARED] || mine[O_SHARED_REFERENCE] || mine[O_EMPLACE_FROM_SHARED]) copier = true;
         }
         bool overlap = false;
         for (int k = 0; k < O_COUNT_; ++k) overlap = overlap || kinds_seen[k] >= 2;
